@@ -6,13 +6,14 @@ location in a random order, read everything back in another order; by-reference 
 fresh locals; STATIC and SHARED).
 """
 from .. import core, real, values
-from qvm.memlayout import get_local_var_idx, get_global_var_idx, get_dotted_index, get_type_size
+from qvm.memlayout import get_local_var_idx, get_global_var_idx, get_dotted_index, get_type_size, get_params_size, get_local_vars_size
 from qvm.utils import format_number
 
 LEAN_MODULE = 'QbeeModel.Props.C04'
 REQUIRED = ['vars_disjoint', 'field_inside', 'fields_disjoint', 'elemOffset_inj', 'elem_inside', 'store_frame',
             'read_pure', 'unset_reads_default', 'assigned_reads_value', 'readIdxOld_clobbers', 'byref_aliases_exactly',
-            'byval_aliases_nothing', 'fresh_locals', 'byval_temps_distinct']
+            'byval_aliases_nothing', 'fresh_locals', 'byval_temps_distinct', 'params_one_cell_each', 'param_slot_is_position',
+            'param_reads_its_argument', 'local_behind_params', 'whole_record_sizing_was_wrong']
 CT = real.CellType
 TC = values.TYPE_CHAR
 TYPES = values.TYPES
@@ -117,7 +118,7 @@ def sentinel_program(rng, search=False):
     """-> (source, expected output text).  Every location gets a distinct value; reads come back in another order."""
     tlines, types = gen_types(rng)
     ndecl = rng.randint(2, 6)
-    where = rng.choice(['main', 'sub', 'static', 'shared'])
+    where = rng.choice(['main', 'sub', 'static', 'shared', 'param', 'param'])
     bias = rng.choice(list(types)) if search and types else None
     decls = [gen_decl(rng, types, i, bias=bias) for i in range(ndecl)]
     locs = []     # (lvalue text, builtin type)
@@ -179,6 +180,43 @@ def sentinel_program(rng, search=False):
             exp += format_number(v, CT[bt]) + ' \r\n'
     if where == 'main':
         src = tlines + body + wl + rl
+    elif where == 'param':
+        # declared in main, every variable handed to a SUB as a parameter (scalars, whole records, whole arrays, arrays of
+        # records): the SUB writes through its parameters and reads some back, main reads everything afterwards
+        ren = {}
+        plist, args = [], []
+        for k, (name, decl, shape) in enumerate(decls):
+            if shape[0] == 's' and shape[1] in TYPES:
+                pn = f'q{k}{TC[shape[1]]}'
+                plist.append(pn)
+                args.append(name)
+            elif shape[0] == 's':
+                pn = f'q{k}'
+                plist.append(f'{pn} AS {shape[1]}')
+                args.append(name)
+            elif shape[1] in TYPES:
+                pn = f'q{k}{TC[shape[1]]}'
+                plist.append(f'{pn}()')
+                args.append(f'{name}()')
+            else:
+                pn = f'q{k}'
+                plist.append(f'{pn}() AS {shape[1]}')
+                args.append(f'{name}()')
+            ren[name] = pn
+
+        def tr(line):
+            for name, pn in ren.items():
+                line = line.replace(name, pn)
+            return line
+        order = list(range(len(plist)))
+        rng.shuffle(order)
+        head = ', '.join(plist[i] for i in order)
+        call = ', '.join(args[i] for i in order)
+        nsub = rng.randint(0, min(6, len(rl)))
+        sub_reads = rl[:nsub]
+        exp_lines = exp.split('\r\n')
+        exp = '\r\n'.join(exp_lines[:nsub] + exp_lines)
+        src = tlines + body + [f'CALL w({call})'] + rl + ['END', f'SUB w({head})'] + ['  ' + tr(l) for l in wl + sub_reads] + ['END SUB']
     elif where in ('sub', 'static'):
         st = ' STATIC' if where == 'static' else ''
         src = tlines + ['CALL p', 'END', f'SUB p{st}'] + ['  ' + l for l in body + wl + rl] + ['END SUB']
@@ -277,9 +315,11 @@ def layout_case(t):
         toks = []
         for n, ty in decls:
             toks += [n] + qtype_tokens(ty, comp)
-        total = sum(get_type_size(comp, ty) for _, ty in decls)
+        # the model is given the declared types; that a parameter takes one cell whatever it refers to is the model's
+        # statement (Layout.routineFrame), compared here with memlayout
+        total = get_params_size(r) + get_local_vars_size(r)
         for n, ty in decls:
-            reqs.append('layout vidx ' + n + ' ' + ' '.join(toks))
+            reqs.append(f'layout ridx {n} {len(r.params)} ' + ' '.join(toks))
             exp.append(f'{get_local_var_idx(r, n)} {total}')
     gdecls = list(comp.global_vars.items())
     toks = []
@@ -375,8 +415,18 @@ def run(chk):
         sub = [d for _, d, _ in decls[len(decls) // 2 + 1:] if d]
         scal_main = [f'{n} = {n}' for n, d, s in decls[: len(decls) // 2 + 1] if d is None]
         scal_sub = [f'{n} = {n}' for n, d, s in decls[len(decls) // 2 + 1:] if d is None]
-        ptypes = [rng.choice(TYPES) for _ in range(rng.randint(0, 3))]
-        params = ', '.join(f'pp{k}{TC[t]}' for k, t in enumerate(ptypes))
+        plist = []
+        for k in range(rng.randint(0, 4)):
+            r_ = rng.random()
+            if r_ < 0.5:
+                plist.append(f'pp{k}{TC[rng.choice(TYPES)]}')
+            elif r_ < 0.75:
+                plist.append(f'pp{k} AS {rng.choice(list(types))}')
+            elif r_ < 0.9:
+                plist.append(f'pp{k}{TC[rng.choice(TYPES)]}()')
+            else:
+                plist.append(f'pp{k}() AS {rng.choice(list(types))}')
+        params = ', '.join(plist)
         shared = 'DIM SHARED sh1(1 TO 2) AS LONG\nDIM SHARED sh2 AS STRING\n' if rng.random() < 0.5 else ''
         src = '\n'.join(tlines + main + scal_main) + '\n' + shared + f'END\nSUB q' + (f'({params})' if params else '') + (' STATIC' if rng.random() < 0.3 else '') + \
             '\n' + '\n'.join(sub + scal_sub) + '\nEND SUB\n'
